@@ -39,6 +39,46 @@ use std::time::Duration;
 
 const DEFAULTS_RS: &str = include_str!("/repo/minijinja/src/defaults.rs");
 const FUZZ_DICT: &str = include_str!("/repo/fuzz/dict");
+const CONTRIB_LIB_RS: &str = include_str!("/repo/minijinja-contrib/src/lib.rs");
+const PYCOMPAT_RS: &str = include_str!("/repo/minijinja-contrib/src/pycompat.rs");
+
+/// names registered by `minijinja_contrib::add_to_environment` (`env.add_<what>("name", …)`)
+fn contrib_names(what: &str) -> Vec<String> {
+    let pat = format!("env.add_{}(\"", what);
+    let mut v = vec![];
+    let mut i = 0;
+    while let Some(p) = CONTRIB_LIB_RS[i..].find(&pat) {
+        let s = &CONTRIB_LIB_RS[i + p + pat.len()..];
+        if let Some(q) = s.find('"') {
+            v.push(s[..q].to_string());
+        }
+        i += p + pat.len();
+    }
+    v.sort();
+    v.dedup();
+    v
+}
+
+/// method names handled by the pycompat callback: the string literals of its `match method` arms
+fn pycompat_methods() -> Vec<String> {
+    let mut v = vec![];
+    for line in PYCOMPAT_RS.lines() {
+        let t = line.trim();
+        if t.starts_with('"') && t.ends_with("=> {") || (t.starts_with('"') && t.contains("\" =>")) {
+            for part in t.split('|') {
+                let part = part.trim();
+                if let Some(rest) = part.strip_prefix('"') {
+                    if let Some(q) = rest.find('"') {
+                        v.push(rest[..q].to_string());
+                    }
+                }
+            }
+        }
+    }
+    v.sort();
+    v.dedup();
+    v
+}
 
 // ------------------------------------------------------------------------------------ panics
 static LAST_PANIC: Mutex<String> = Mutex::new(String::new());
@@ -154,7 +194,9 @@ fn make_env(fuel: Option<u64>) -> Environment<'static> {
         let _ = env.add_template_owned(n, s);
     }
     env.add_function("echo", |args: Rest<Value>| Value::from(args.0));
+    // the whole minijinja-contrib surface: filters / functions of every feature, Python-compatible methods
     minijinja_contrib::add_to_environment(&mut env);
+    env.set_unknown_method_callback(minijinja_contrib::pycompat::unknown_method_callback);
     env
 }
 
@@ -1050,7 +1092,8 @@ fn dump_streams(thorough: bool) {
                 sources.push((c.clone(), format!("{{{{ {} }}}}", s)));
             }
         } else if f[0] == "d" && f.len() == 3 {
-            for n in [3usize, 40] {
+            let ns: &[usize] = if f[1].starts_with("stk") { &[2] } else { &[3, 40] };
+            for &n in ns {
                 let (s, is_t) = depth_source(f[1], n);
                 sources.push((format!("d {} {}", f[1], n), if is_t { s } else { format!("{{{{ {} }}}}", s) }));
             }
@@ -1390,8 +1433,8 @@ fn gen_builtin_cases(out: &mut Vec<String>, rng: &mut Rng, thorough: bool) {
             if a.is_empty() { format!("{{{{ {}|{} }}}}{{{{ {}|{}() }}}}", r, nm, r, nm) } else { format!("{{{{ {}|{}({}) }}}}", r, nm, a) }
         }, &recvs, per, thorough);
     }
-    for name in ["pluralize", "filesizeformat", "truncate", "striptags"] {
-        // minijinja-contrib filters available without optional features
+    for name in contrib_names("filter") {
+        // minijinja-contrib filters (all features)
         let recvs = pick_recvs(rng);
         let nm = name.to_string();
         add_call_cases(out, rng, &format!("filter:{}", name), &move |r, a| {
@@ -1410,6 +1453,21 @@ fn gen_builtin_cases(out: &mut Vec<String>, rng: &mut Rng, thorough: bool) {
         add_call_cases(out, rng, &format!("function:{}", name), &move |r, a| {
             if a.is_empty() { format!("{{{{ {}() }}}}", nm) } else { format!("{{{{ {}({}) }}}}{{{{ {}({}, {})|list|length }}}}", nm, a, nm, r, a) }
         }, &["1", "big", "xs", "m", "small", "none"], per * 2, thorough);
+    }
+    for name in contrib_names("function") {
+        let nm = name.clone();
+        add_call_cases(out, rng, &format!("function:{}", name), &move |r, a| {
+            if a.is_empty() { format!("{{{{ {}() }}}}{{% set o = {}() %}}{{{{ o }}}}{{{{ o() }}}}{{{{ o.next() }}}}{{{{ o.current }}}}", nm, nm) } else { format!("{{{{ {}({}) }}}}{{{{ {}({}, {})|string|length }}}}", nm, a, nm, r, a) }
+        }, &["1", "big", "xs", "m", "small", "none", "'%Y é'", "0"], per * 2, thorough);
+    }
+    // Python-compatible methods (pycompat): every method on every kind of receiver
+    for name in pycompat_methods() {
+        let mut recvs = pick_recvs(rng);
+        recvs.extend_from_slice(&["'abc'", "'äöü ß'", "''", "'a,b,,c'", "'  x  '", "'Ab\\ncD\\r\\n'", "[1, 2, 2]", "{'a': 1}"]);
+        let nm = name.clone();
+        add_call_cases(out, rng, &format!("method:{}", name), &move |r, a| {
+            format!("{{{{ {}.{}({}) }}}}", if r.starts_with(|c: char| c.is_ascii_digit() || c == '-') { format!("({})", r) } else { r.to_string() }, nm, a)
+        }, &recvs, per, thorough);
     }
     // loop object: methods and attributes
     for meth in ["cycle", "changed", "nosuch", "index", "length", "revindex", "previtem", "nextitem", "depth"] {
